@@ -536,7 +536,7 @@ func (c *converter) Exists(path string, valueUsed bool) (string, error) {
 
 func (c *converter) ReadFile(path string, valueUsed bool) (string, error) {
 	helper := c.nextHelperVar()
-	c.VarAssignment(helper, fmt.Sprintf("$(cat -- \"%s\")", path), false) // Use "--" to make sure a path starting with a dash is not interpreted as an option.
+	c.VarAssignment(helper, fmt.Sprintf("$(cat < \"%s\")", path), false) // Use a redirection to make sure a path starting with a dash is not interpreted as an option or, if it is just a dash, as standard input.
 	return c.VarEvaluation(helper, valueUsed, false)
 }
 
